@@ -385,10 +385,11 @@ def apply_op(w, op, index, check=True):
             out["outcome"] = "reject_not_raised"
             # the library may accept more than the model does — but whatever it accepts has to leave the tables mutually
             # consistent (model-independent invariants; C19 speaks of every *accepted* call on arbitrary views)
-            d2 = [x for x in structural_invariants(w.m) if not x.startswith("dangling:")]
+            d2 = [x for x in structural_invariants(w.m) if op["op"] == "delete_channel" or not x.startswith("dangling:")]
             if d2:
                 w.violate("structural_invariant", f"{op['op']} ({info.get('reject_reason')}) was accepted and left: " + "; ".join(d2[:4]), index,
-                          {"after_accepted_call_outside_model": True})
+                          {"after_accepted_call_outside_model": True,
+                           "dangling_after_delete_channel": op["op"] == "delete_channel" and any(x.startswith("dangling:") for x in d2)})
         else:
             after = snap.snapshot(w.m, with_xyzr=False)
             if after != before:
